@@ -254,6 +254,10 @@ func (x *exec) callEffects(ef *effects, ins ssa.CallInstruction, depth int, seen
 			if sl, ok := types.Unalias(c.Args[0].Type()).Underlying().(*types.Slice); ok {
 				ef.keys[memKeyPrefix(sl.Elem())] = true
 			}
+		case "clear":
+			if mt, ok := types.Unalias(c.Args[0].Type()).Underlying().(*types.Map); ok {
+				ef.keys["map<"+typeKey(mt.Key())+","+typeKey(mt.Elem())+">"] = true
+			}
 		case "delete":
 			mt := types.Unalias(c.Args[0].Type()).Underlying().(*types.Map)
 			ef.keys["map<"+typeKey(mt.Key())+","+typeKey(mt.Elem())+">"] = true
@@ -550,6 +554,22 @@ func (x *exec) loopEnter(st *State, fr *Frame, lp *loop) bool {
 			nv := e.fresh("lg_"+g.Name(), t)
 			e.assumeValid(st, nv)
 			st.globals[g] = nv
+		}
+	}
+	// the visited sets of map iterations driven inside the loop
+	for _, b := range fr.fn.Blocks {
+		if !lp.body[b] {
+			continue
+		}
+		for _, ins := range b.Instrs {
+			if nx, ok := ins.(*ssa.Next); ok && !nx.IsString {
+				if r, ok := nx.Iter.(*ssa.Range); ok {
+					key := "$visited#" + x.rangeID(r)
+					if v, have := st.ghostLocals[key]; have {
+						st.ghostLocals[key] = Value{L: []smt.Term{e.ctx.Fresh("visited", v.L[0].Sort)}}
+					}
+				}
+			}
 		}
 	}
 	var locals []*ssa.Alloc
